@@ -764,10 +764,56 @@ pub fn locate(tag: &str, d: &[u8], rng: &mut Rng) -> Vec<Field> {
         "kern" => {
             f(&mut out, "kern.version", 0, 2, n);
             f(&mut out, "kern.nTables", 2, 2, n);
-            f(&mut out, "kern.sub0.length", 6, 2, n);
-            f(&mut out, "kern.sub0.coverage", 8, 2, n);
-            f(&mut out, "kern.sub0.nPairs", 10, 2, n);
-            f(&mut out, "kern.sub0.searchRange", 12, 2, n);
+            // walk the subtables by their length field (format 0: by nPairs when length is 0)
+            let nt = be16(d, 2).unwrap_or(0).min(8);
+            let want = rng.usize_below(nt.max(1));
+            let mut s = 4;
+            for i in 0..nt {
+                let (Some(len), Some(cov)) = (be16(d, s + 2), be16(d, s + 4)) else { break };
+                if i == want {
+                    f(&mut out, "kern.sub.length", s + 2, 2, n);
+                    f(&mut out, "kern.sub.coverage", s + 4, 2, n);
+                    f(&mut out, "kern.sub.format", s + 4, 1, n);
+                    if cov >> 8 == 2 {
+                        f(&mut out, "kern.fmt2.rowWidth", s + 6, 2, n);
+                        f(&mut out, "kern.fmt2.leftClassOffset", s + 8, 2, n);
+                        f(&mut out, "kern.fmt2.rightClassOffset", s + 10, 2, n);
+                        f(&mut out, "kern.fmt2.arrayOffset", s + 12, 2, n);
+                        for (name, at) in [("left", s + 8), ("right", s + 10)] {
+                            if let Some(o) = be16(d, at) {
+                                let c = s + o;
+                                f(&mut out, &format!("kern.fmt2.{}.firstGlyph", name), c, 2, n);
+                                f(&mut out, &format!("kern.fmt2.{}.nGlyphs", name), c + 2, 2, n);
+                                let ng = be16(d, c + 2).unwrap_or(1).max(1);
+                                f(
+                                    &mut out,
+                                    &format!("kern.fmt2.{}.class[k]", name),
+                                    c + 4 + 2 * pick_index(rng, ng),
+                                    2,
+                                    n,
+                                );
+                            }
+                        }
+                    } else {
+                        f(&mut out, "kern.fmt0.nPairs", s + 6, 2, n);
+                        f(&mut out, "kern.fmt0.searchRange", s + 8, 2, n);
+                        let np = be16(d, s + 6).unwrap_or(1).max(1);
+                        let k = pick_index(rng, np);
+                        f(&mut out, "kern.fmt0.pair.left", s + 14 + 6 * k, 2, n);
+                        f(&mut out, "kern.fmt0.pair.right", s + 16 + 6 * k, 2, n);
+                        f(&mut out, "kern.fmt0.pair.value", s + 18 + 6 * k, 2, n);
+                    }
+                }
+                let adv = if len >= 6 {
+                    len
+                } else {
+                    14 + 6 * be16(d, s + 6).unwrap_or(0)
+                };
+                s += adv;
+                if s >= n {
+                    break;
+                }
+            }
         }
         "post" => {
             f(&mut out, "post.version", 0, 4, n);
